@@ -130,7 +130,8 @@ class ParsersWorld:
                     if cur is not None and ro.random() < 0.3:
                         it = workload.pick_related(ro, cur["src"])
                     if it is None:
-                        it = workload.pick_item(rw, swarm["p_corpus"])
+                        # now and then one of the few really large scripts of the corpus (100 KB)
+                        it = workload.pick_item(rw, swarm["p_corpus"], max_len=200000 if ro.random() < 0.02 else 6000)
                 cur = it
                 last_kw = None
                 ops.append({"op": "new", "ddl": it["ddl"], "flags": it["flags"], "src": it["src"]})
